@@ -6,6 +6,7 @@ working tree.  Each extraction uses a fresh target dir (mktemp) which is removed
 so cargo's freshness cache can never replay a stale run without invoking the driver.
 """
 import fcntl
+import re
 import hashlib
 import json
 import os
@@ -137,7 +138,10 @@ def extract(config="all", repo=None, quiet=True):
 class Facts:
     def __init__(self, path, config):
         with open(path) as fh:
-            d = json.load(fh)
+            raw = fh.read()
+        # no_std configurations print std items under core:: / alloc:: -- one spelling for the model tables
+        raw = re.sub(r'(?<![A-Za-z0-9_])(core|alloc)::', 'std::', raw)
+        d = json.loads(raw)
         self.path = path
         self.config = config
         self.raw = d
